@@ -22,13 +22,33 @@ def serve(arg):
         # the owner customised some masses; reload=True is the documented way to restore the table
         pub = periodictable.elements
         pub.D._mass, pub.T._mass, pub[26]._mass, pub[8][18]._mass = 2.5, 3.5, 60.0, 19.0
+        pub[6][14]._abundance, pub[43][99]._abundance, pub[3][6]._abundance = 2.0, 50.0, 95.0      # (C-14 and Tc-99 are not in the composition table)
         mass.init(pub, reload=True)
+    skip_public = False
+    if variant & 16 and not variant & 8:
+        # the public table has been customised (and is not served here); a private table initialised now still gets the
+        # embedded tables, not the public table's current state
+        pub = periodictable.elements
+        for z in arg["zs"]:
+            el = pub[z]
+            if getattr(el, "_mass", None) is not None:
+                el._mass, el._mass_unc = el._mass * 1.0625, 0.5
+            if getattr(el, "_density", None) is not None:
+                el._density = el._density * 2.0
+            for iso in el:
+                if "_mass" in vars(iso):
+                    iso._mass = iso._mass * 1.03125
+                if "_abundance" in vars(iso):
+                    iso._abundance, iso._abundance_unc = iso._abundance * 0.5 + 1.0, 0.25
+        skip_public = True
     late_private = bool(variant & 4) and arg.get("private")     # the private table is only created after the public one was served
     if arg.get("private") and not late_private:
         tabs["T1"] = make_private()
     out = []
     order = sorted(tabs.items(), reverse=True) + ([("T1", None)] if late_private else [])
     for T, t in order:
+        if T == "public" and skip_public:
+            continue
         if t is None:
             t = make_private()
         for z in arg["zs"]:
